@@ -19,7 +19,7 @@ THEOREMS = [
     "C11.features_factor", "C11.length_relabel", "C11.volume_scale", "C11.concentric_scale'", "C11.concentric_scale_eps0", "C11.concentric_scale_counterexample",
     "C11.exitT_scale", "C11.edgeDot_from_distances", "C11.angle_invariant_of_isometry", "C11.rigid_preserves_angles", "C11.angle_data_scale",
     "C11.generated_lmgeo_under_map", "C11.generated_bif_angles_under_map", "C11.generated_nodefeat_under_map", "C11.generated_sholl_under_map",
-    "C11.generated_rigid_invariance", "C11.generated_scale", "C11.generated_rigid_source_matrices", "C11.generated_counts_coordinate_free",
+    "C11.generated_rigid_invariance", "C11.generated_scale", "C11.generated_branch_angle_scale", "C11.generated_rigid_source_matrices", "C11.generated_counts_coordinate_free",
     "C11.generated_counts_renumbered", "C11.generated_tree_length_renumbered", "C11.moved_mapCols", "Invar.rigid_rowRel", "Invar.scale_rowRel", "Invar.Homog.scale", "Invar.path_length_general",
 ]
 TRUSTED = ["the feature models of C10 (functions of parent relation + distances only), C12's generated matrices (isometry), C13's generated volume forms (homogeneous of degree 3)"]
@@ -32,8 +32,8 @@ ASSUMPTIONS = ["floating-point rounding is outside the theorems (the property it
                "bounding box cuts oblique frusta, depending on their direction) - a finding reported in round 7, not compared here",
                "volume under scaling: compared only while every non-zero radius step along an edge is >= 1e-5 length units before and after (the code's "
                "absolute 1e-6 'no taper' band of the sphere/frustum overlap, DESIGN §8, is not scale free: inside it the unchanged library is 0.3-0.5 % off s^3)",
-               "angles between branches (extract_feature.get('branch_angle')) are compared under rotation, translation and renumbering (3e-3 rad; 1e-4 rad "
-               "under float32-exact translations), not under scaling: the unchanged library divides by |u||v| + 1e-7, which is not scale free",
+               "angles between branches (extract_feature.get('branch_angle')) are compared under rotation, translation, renumbering and uniform scaling "
+               "(3e-3 rad; 1e-4 rad under float32-exact translations)",
                "far translations and power-of-two scale factors are exact in float32; decimal unit changes (1e-9 .. 1e9) round every coordinate by 6e-8 relative, "
                "which stays below the tolerance because the shortest compartment is >= 1/512 of the neuron's extent"]
 
@@ -790,9 +790,9 @@ class Metamorphic(Suite):
                 out.append((f"{kind}-changes-volume-mc", f"{what} turned get_volume (accuracy {case['mc']}) {x} into {y} (expected {exp} within {MC_TOL:.1%}: "
                             f"far above the sampling noise); pids={case['tree']['pids']}"))
         # extract_feature(x).get("branch_angle"): the angles between branches (radians, entries as a multiset).  Judged under rotation,
-        # translation and renumbering; NOT under scaling: the unchanged library adds an absolute eps = 1e-7 to |u||v| before dividing, so
-        # its angles drift towards pi/2 as the neuron shrinks (see ASSUMPTIONS) - nothing can be compared there.
-        if kind != "scale" and ("branch_angle" in a or "branch_angle" in b):
+        # translation, renumbering AND uniform scaling (the property: scaling "leaves counts, angles and ratios unchanged", for every s > 0;
+        # a library that adds an absolute eps to |u||v| before dividing drifts towards pi/2 as the neuron shrinks and is reported here).
+        if "branch_angle" in a or "branch_angle" in b:
             x, y = a.get("branch_angle"), b.get("branch_angle")
             lim = 1e-4 if kind == "far" else 3e-3
             try:
